@@ -83,7 +83,19 @@ def quadrature(h, rule="gauss", n=2):
     h.assume(b <= 2.0, "b <= 2")
     h.assume(a < b, "a < b")
     f = gauss if rule == "gauss" else lobatto
-    pts, wts = f(n, interval=h.arr([a, b]))
+    try:
+        pts, wts = f(n, interval=h.arr([a, b]))
+    except TypeError as e:
+        if "C boundary" not in str(e):
+            raise
+        # the rule evaluates third-party (numpy Legendre) code at interval-dependent points: not encodable with a symbolic interval.
+        # Decide the clauses on a concrete non-symmetric interval instead (the model is pinned to it, so the replay runs the same instance).
+        a0, b0 = 0.25, 1.0
+        h.assume_eq(a, a0, "interval concretised")
+        h.assume_eq(b, b0, "interval concretised")
+        h.note("symbolic interval reached a C boundary: interval concretised to [0.25, 1]")
+        a, b = a0, b0
+        pts, wts = f(n, interval=np.array([a0, b0]))
     kmax = 2 * n - 1 if rule == "gauss" else 2 * n - 3
     tol = 1e-10 if kmax <= 7 else 1e-8
     h.eq("weights sum to the interval length", sum(wts[i] for i in range(n)), b - a, tol=tol)
@@ -97,39 +109,50 @@ def quadrature(h, rule="gauss", n=2):
         h.le(f"weight {i} > 0", 0.0, wts[i], strict=True)
 
 
-def connectivity(h, degree=2, nel=3, dim_q=3, disc=False):
-    from cardillo.rods.discretization.lagrange import LagrangeKnotVector
-    from cardillo.rods.discretization.mesh1D import Mesh1D
-    kv = LagrangeKnotVector(degree, nel)
-    m = Mesh1D(kv, degree, dim_q, derivative_order=1, basis="Lagrange_Disc" if disc else "Lagrange")
+def _connectivity_table(h, m, tab, dim_q, nq, elDOF, nodalDOF, nodalDOF_element, degree, nel, disc):
     # a global vector of distinct labels gathered through elDOF / nodalDOF_element
-    labels = np.arange(m.nq)
+    labels = np.arange(nq)
     node_of = {}
     for nd in range(m.nnodes):
         for c in range(dim_q):
-            node_of[int(m.nodalDOF[nd, c])] = (nd, c)
-    h.holds("nodalDOF is a bijection onto the coordinates", len(node_of) == m.nq and sorted(node_of) == list(range(m.nq)))
+            node_of[int(nodalDOF[nd, c])] = (nd, c)
+    h.holds(f"{tab}: nodalDOF is a bijection onto the coordinates", len(node_of) == nq and sorted(node_of) == list(range(nq)))
     el_nodes = []
     for el in range(nel):
-        qe = labels[m.elDOF[el]]
+        ok_idx = bool(np.all(elDOF[el] >= 0) and np.all(elDOF[el] < nq))
+        h.holds(f"{tab}: element {el} indices inside the global range", ok_idx)
+        if not ok_idx:
+            return
+        qe = labels[elDOF[el]]
         nodes = []
         for ln in range(m.nnodes_per_element):
-            comp = [node_of[int(qe[d])] for d in m.nodalDOF_element[ln]]
-            h.holds(f"element {el} local node {ln}: all components belong to one global node, in order",
+            comp = [node_of[int(qe[d])] for d in nodalDOF_element[ln]]
+            h.holds(f"{tab}: element {el} local node {ln}: all components belong to one global node, in order",
                     len({c[0] for c in comp}) == 1 and [c[1] for c in comp] == list(range(dim_q)))
             nodes.append(comp[0][0])
-        h.holds(f"element {el}: nodes consecutive", nodes == list(range(nodes[0], nodes[0] + degree + 1)))
+        h.holds(f"{tab}: element {el}: nodes consecutive", nodes == list(range(nodes[0], nodes[0] + degree + 1)))
         el_nodes.append(nodes)
     for el in range(nel - 1):
         shared = set(el_nodes[el]) & set(el_nodes[el + 1])
         if disc:
-            h.holds(f"discontinuous mesh: elements {el},{el+1} share no node", len(shared) == 0)
+            h.holds(f"{tab}: discontinuous mesh: elements {el},{el+1} share no node", len(shared) == 0)
         else:
-            h.holds(f"elements {el},{el+1} share exactly their boundary node", shared == {el_nodes[el][-1]} and el_nodes[el][-1] == el_nodes[el + 1][0])
+            h.holds(f"{tab}: elements {el},{el+1} share exactly their boundary node", shared == {el_nodes[el][-1]} and el_nodes[el][-1] == el_nodes[el + 1][0])
     for el in range(nel):
         for el2 in range(el + 2, nel):
-            h.holds(f"elements {el},{el2} share nothing", not (set(el_nodes[el]) & set(el_nodes[el2])))
-    h.holds("every node belongs to an element", set(sum(el_nodes, [])) == set(range(m.nnodes)))
+            h.holds(f"{tab}: elements {el},{el2} share nothing", not (set(el_nodes[el]) & set(el_nodes[el2])))
+    h.holds(f"{tab}: every node belongs to an element", set(sum(el_nodes, [])) == set(range(m.nnodes)))
+
+
+def connectivity(h, degree=2, nel=3, dim_q=3, disc=False):
+    from cardillo.rods.discretization.lagrange import LagrangeKnotVector
+    from cardillo.rods.discretization.mesh1D import Mesh1D
+    kv = LagrangeKnotVector(degree, nel)
+    dim_u = dim_q - 1            # (quaternion rods: 7 coordinates / 6 velocities per node) the two tables differ
+    m = Mesh1D(kv, degree, dim_q, derivative_order=1, basis="Lagrange_Disc" if disc else "Lagrange", dim_u=dim_u)
+    for tab, dim, nqu, elDOF, nodalDOF, nodalDOF_element in (("coordinates", dim_q, m.nq, m.elDOF, m.nodalDOF, m.nodalDOF_element),
+                                                             ("velocities", dim_u, m.nu, m.elDOF_u, m.nodalDOF_u, m.nodalDOF_element_u)):
+        _connectivity_table(h, m, tab, dim, nqu, elDOF, nodalDOF, nodalDOF_element, degree, nel, disc)
     # quadrature points lie in their element, shape functions at them form a partition of unity
     for el in range(nel):
         lo, hi = kv.element_interval(el)
